@@ -80,7 +80,8 @@ def check(run, prog):
                 ck.same("R3", fi.where, "dtype rule " + tag, "complex64 for float32 input, complex128 otherwise",
                         isinstance(rd, ExtV) and rd.dotted == "numpy." + dt[1], found=repr(rd), expected="numpy." + dt[1])
     # N == 0 shortcut and complex input
-    for dt, want in (("float32", "complex64"), ("float64", "complex128"), ("int64", "complex128")):
+    for dt, want in (("float32", "complex64"), ("float64", "complex128"), ("int64", "complex128"), ("int32", "complex128"), ("int16", "complex128"),
+                     ("int8", "complex128"), ("uint8", "complex128"), ("float16", "complex128"), ("bool_", "complex128")):
         ev = ck.evaluator()
         x = Num(sp.Symbol("x"), kind="array", shape=(sp.Integer(0), sp.Integer(3)), tag="data", dtype=ExtV("numpy." + dt))
         out = ck.attempt("R3", fi.where, f"real_to_complex(empty {dt})", "evaluates", lambda: ev.call(fi, [x], {}), ev=ev, allowed_guards=[])
